@@ -114,6 +114,7 @@ Proof.
     exact (vkeep_remove_ref (setc s c _) (cref x)).
   - right. apply vf_cb_return.
   - right. destruct (Nat.eqb c 0); [reflexivity | apply vf_cancel_root].
+  - right. destruct (watch_step_spec s c) as [->|[x [y [_ [-> _]]]]]; reflexivity.
 Qed.
 
 Lemma internal_vf e s : internal_ev e -> vf (step repaired s e) = vf s.
